@@ -1295,20 +1295,28 @@ def rails_worker_main():
                 plan = [["hi"], ["hi"], ["bye"], ["hi", "hi"], ["hi"], ["hi", "bye"], ["bye"]]
                 diffs = []
                 S2 = None
+                refs = {}
+
+                async def reference(tag, saved, msgs):
+                    # one fresh instance per distinct (saved state, continuation)
+                    key = (tag, tuple(msgs))
+                    if key not in refs:
+                        fresh = LLMRails(config=config, llm=FakeLLM(responses=[]))
+                        refs[key] = (await cont_from(fresh, saved, msgs))[0]
+                    return refs[key]
+
                 for k, msgs in enumerate(plan):
                     got, st_after = await cont_from(shared, S1, msgs)          # S1 restored AGAIN on the shared instance
                     if k == 0:
                         S2 = st_after
-                    fresh = LLMRails(config=config, llm=FakeLLM(responses=[]))
-                    want, _ = await cont_from(fresh, S1, msgs)
+                    want = await reference("S1", S1, msgs)
                     if got != want:
                         diffs.append({"restore_no": k + 1, "saved_state": "S1 (after turn 1)", "continuation": msgs,
                                       "shared_instance": got, "fresh_instance": want})
                 # go back to S2 after everything above, twice
                 for k in range(2):
                     got, _ = await cont_from(shared, S2, ["bye"])
-                    fresh = LLMRails(config=config, llm=FakeLLM(responses=[]))
-                    want, _ = await cont_from(fresh, S2, ["bye"])
+                    want = await reference("S2", S2, ["bye"])
                     if got != want:
                         diffs.append({"restore_no": k + 1, "saved_state": "S2 (after turn 2)", "continuation": ["bye"],
                                       "shared_instance": got, "fresh_instance": want})
@@ -1320,6 +1328,7 @@ def rails_worker_main():
         except BaseException as ex:  # noqa
             rec["raised"] = type(ex).__name__ + ": " + str(ex)[:200]
         out.append(rec)
+        json.dump(out, open(sys.argv[1], "w"), default=repr)          # partial results survive a timeout
     json.dump(out, open(sys.argv[1], "w"), default=repr)
 
 
@@ -1446,7 +1455,7 @@ def run(tier, seed, replay=None):
         json.dump({"items": x3_items}, open(jp, "w"))
         x3p = _spawn("x3_worker_main", [jp, x3res], 300 if quick else 900)
     railsres = os.path.join(tmp, "rails.json")
-    railsp = None if (replay and rp.get("kind") != "rails") else _spawn("rails_worker_main", [railsres], 300)
+    railsp = None if (replay and rp.get("kind") != "rails") else _spawn("rails_worker_main", [railsres], 900)
 
     # ---- X1 (this process): generated graphs from the real classes
     kinds = {}
